@@ -50,7 +50,9 @@ def strategy_(draw, tier):
             'n_items': draw(st.integers(1, 3)), 'probe_first': draw(st.booleans())}
   recipe = draw(dags.dag(
       max_nodes=12, min_nodes=4,
-      kinds=['B', 'B', 'list', 'tuple', 'dict', 'ddict', 'nt', 'box', 'Bpos', 'ltuple', 'ntuple', 'mdict', 'Bclash', 'dcinst'],
+      kinds=['B', 'B', 'list', 'tuple', 'dict', 'ddict', 'nt', 'box', 'Bpos', 'ltuple', 'ntuple', 'mdict', 'Bclash', 'dcinst',
+             # further node kinds of the shared generator that this check's oracle handles (each once)
+             'TV', 'kdict', 'set', 'fset', 'Bann', 'Bmut', 'Bmut1', 'Bmutnest', 'Bpo', 'Bpo3', 'Bdc', 'Bempty', 'AFP', 'Bdictcfg'],
       fns=['things:f2', 'things:h1', 'things:Base', 'things:kwf'], bts=('Config', 'Partial'),
       root_kinds=['B', 'list', 'tuple', 'dict', 'nt', 'box', 'Bpos'], p_alias=0.85, tags=True))
   return {'recipe': recipe, 'chain': draw(st.sampled_from([0, 0, 1, 2, 3])), 'chain_dc': draw(st.booleans())}
